@@ -7,9 +7,9 @@
 #include "esl_fileparser.h"
 #include "esl_sq.h"
 
-static ESL_ALPHABET *NT, *AA;
+static ESL_ALPHABET *NT, *AA, *NTD, *NTR;   /* NT = the nucleic alphabet selected by the current op (nt=dna|rna) */
 
-static void h_case_begin(void) { if (!NT) { NT = esl_alphabet_Create(eslDNA); AA = esl_alphabet_Create(eslAMINO); } }
+static void h_case_begin(void) { if (!NTD) { NTD = esl_alphabet_Create(eslDNA); NTR = esl_alphabet_Create(eslRNA); AA = esl_alphabet_Create(eslAMINO); NT = NTD; } }
 static void h_case_end(void) { }
 
 static ESL_OPTIONS options[] = {
@@ -69,6 +69,7 @@ static void h_op(void)
   const char *op = h_words[0];
   int status;
 
+  NT = (h_arg("nt") && !strcmp(h_arg("nt"), "rna")) ? NTR : NTD;
   if (!strcmp(op, "table")) {
     ESL_GENCODE *g = make_code(&status);
     if (!g) { h_out("%s", h_status(status)); return; }
@@ -182,7 +183,8 @@ static void h_op(void)
 int main(void)
 {
   int rc = h_main();
-  if (NT) esl_alphabet_Destroy(NT);
+  if (NTD) esl_alphabet_Destroy(NTD);
+  if (NTR) esl_alphabet_Destroy(NTR);
   if (AA) esl_alphabet_Destroy(AA);
   return rc;
 }
